@@ -24,7 +24,10 @@ SEEDS: Dict[str, List[bytes]] = {
     'iri': [b'http://r\xc3\xa9sum\xc3\xa9.example/\xe2\x82\xac?x=\xf0\x9f\x98\x80#f'],
     'http_req': [b'GET /x?y=1 HTTP/1.1\r\nHost: a.example\r\nX-A:  b \r\n\r\nbody', b'HTTP/1.1 200 OK\r\nContent-Length: 2\r\n\r\nhi',
                  b'OPTIONS * HTTP/1.0\r\n\r\n'],
-    'http_chunked': [b'4\r\nWiki\r\n5;x=y\r\npedia\r\n0\r\nT: v\r\n\r\n', b'a;q="s"\r\n0123456789\r\n0\r\n\r\n'],
+    'http_chunked': [b'4\r\nWiki\r\n5;x=y\r\npedia\r\n0\r\nT: v\r\n\r\n', b'a;q="s"\r\n0123456789\r\n0\r\n\r\n',
+                     # chunk sizes at the edges of std::size_t: the length guard of chunk_data must not wrap
+                     b'fffffffffffffffe\r\nAB\r\n0\r\n\r\n', b'ffffffffffffffff\r\nAB\r\n0\r\n\r\n', b'FFFFFFFFFFFFFFFD\r\nAB\r\n0\r\n\r\n',
+                     b'8000000000000000\r\nAB\r\n0\r\n\r\n', b'10000000000000002\r\nAB\r\n0\r\n\r\n', b'7fffffffffffffff;e\r\nAB\r\n0\r\n\r\n'],
     'json_pointer': [b'/a~1b/0/~0x', b''],
     'ints': [b'-12,u34,m65535,+7,0,m65536,u007', b'-0,+x'],
     'raw': [b'[==[ab\n]]x]==]tail[[\r\ny]]', b'[[', b'[=[]]]=]', b'[====['],
@@ -41,6 +44,23 @@ SEEDS: Dict[str, List[bytes]] = {
 
 MUT_BYTES = [0x00, 0xff, 0x22, 0x5c, 0x5b, 0x5d, 0x0a, 0x0d, 0x30, 0x80, 0x7b, 0x25]
 
+# numerals at the edges of the integer types a grammar may convert to (lengths, counts, sizes): substituted for digit runs
+EDGE_NUMERALS = [b'0', b'255', b'256', b'65535', b'65536', b'4294967295', b'4294967296', b'18446744073709551614', b'18446744073709551615',
+                 b'18446744073709551616', b'fffffffffffffffe', b'ffffffffffffffff', b'FFFFFFFF', b'7fffffffffffffff', b'8000000000000000',
+                 b'10000000000000001', b'99999999999999999999']
+
+
+def edge_numeral_variants(s: bytes) -> List[bytes]:
+    """Each maximal run of (hex) digits of the seed replaced, one at a time, by every edge numeral."""
+    import re as _re
+    out = []
+    for m in _re.finditer(rb'[0-9A-Fa-f]+', s):
+        if not any(48 <= c <= 57 for c in m.group()):
+            continue
+        for e in EDGE_NUMERALS:
+            out.append(s[:m.start()] + e + s[m.end():])
+    return out
+
 
 def cases_for(rng: random.Random, tier: str) -> List[Tuple[str, str, bytes]]:
     out = []
@@ -50,6 +70,9 @@ def cases_for(rng: random.Random, tier: str) -> List[Tuple[str, str, bytes]]:
             modes = ['eager', 'lazy'] + (['crlf'] if gname.startswith('http') or gname in ('rom', 'raw') else [])
             for k in range(len(s) + 1):
                 out.append((gname, modes[k % len(modes)], s[:k]))            # every truncation
+            ev = edge_numeral_variants(s)
+            for j, d in enumerate(ev if tier != 'quick' else ev[: 3 * len(EDGE_NUMERALS)]):
+                out.append((gname, modes[j % len(modes)], d))
             for _ in range(per_seed_mut):
                 if not s:
                     break
